@@ -499,6 +499,12 @@ func init() {
 		reg(&explore.Suite{Name: fmt.Sprintf("memsnap3-d%d", d), Cfg: sim.Config{Voters: 3, Spares: 1, SnapAt: 2}, Seed: seedLeader3, Monitors: snapMonitors,
 			Budget: sim.Budget{Timeouts: 1, Elapses: 1, Beats: 1, Writes: 2, Members: 1, Cuts: 1, Crashes: 1, Restarts: 1, Reorders: -1, Splits: 1, Deviations: d}})
 	}
+	// S-nonvoters with submissions (C03): the cut-off leader n0 reaches only the
+	// two non-voters; n1 leads term 2 on the voters' side.
+	for d := 0; d <= 6; d++ {
+		reg(&explore.Suite{Name: fmt.Sprintf("nvwrite5-d%d", d), Cfg: sim.Config{Voters: 3, Spares: 2}, Seed: seedNonVoters,
+			Budget: sim.Budget{Beats: 1, Writes: 2, Reorders: -1, Splits: 1, ClientTimeouts: 1, Deviations: d}})
+	}
 	// S-minority5, untimed (C05): leader n0 keeps only n1 (2 of 5 voters); n2 leads
 	// term 2 with n3 and n4.
 	minRead5 := append(append([]sim.Event{}, seedLeader5...), sim.MustParse("cut n0 a=2", "cut n0 a=3", "cut n0 a=4", "cut n1 a=2", "cut n1 a=3", "cut n1 a=4",
